@@ -23,7 +23,7 @@ Visible == \/ Enter \/ CallRejected \/ Done \/ Step \/ Submit
            \/ \E g \in BOOLEAN : Call(g)
            \/ \E k \in Kinds : End(k)
 TNext == \/ /\ More /\ Visible /\ Same(last', Ev) /\ l' = l + 1 /\ t' = t
-         \/ /\ More /\ (ExitBegin \/ \E e \in BOOLEAN : Finalise(e)) /\ l' = l /\ t' = t
+         \/ /\ More /\ (ExitBegin \/ SetupFails \/ \E e \in BOOLEAN : Finalise(e)) /\ l' = l /\ t' = t
 TSpec == TInit /\ [][TNext]_tvars
 Progress == IF TLCGet(t) < l THEN TLCSet(t, l) ELSE TRUE
 Accepted ==
